@@ -65,6 +65,7 @@ type ctlCase struct {
 	Chunks  []int
 	Key     [4]byte // mask of the incoming frame (server side)
 	EOFWD   bool    // the source returns its last chunk together with io.EOF
+	SameKey bool    // every frame of a multi-frame stream is masked with Key (a peer may reuse its key)
 	// Fault: the source ends after K (< len(Payload)) payload bytes of the control
 	// frame, with tx.ErrInjected (faultError) or with a plain EOF (faultCut).
 	Fault int
@@ -124,6 +125,7 @@ type ctlDesc struct {
 	Chunks  []int  `json:"src_chunks,omitempty"`
 	Key     string `json:"mask,omitempty"`
 	EOFWD   bool   `json:"eof_with_data,omitempty"`
+	SameKey bool   `json:"same_key_for_all_frames,omitempty"`
 	Fault   string `json:"fault,omitempty"`
 	K       int    `json:"k,omitempty"`
 }
@@ -132,7 +134,7 @@ var opNames = map[byte]string{ref.OpPing: "ping", ref.OpPong: "pong", ref.OpClos
 
 func (c ctlCase) desc() ctlDesc {
 	d := ctlDesc{Op: opNames[c.Op], Payload: fmt.Sprintf("%x", c.Payload), Len: len(c.Payload), Side: "client", Entry: entryNames[c.Entry], Chunks: c.Chunks,
-		EOFWD: c.EOFWD, Fault: faultNames[c.Fault], K: c.K}
+		EOFWD: c.EOFWD, SameKey: c.SameKey && c.Server, Fault: faultNames[c.Fault], K: c.K}
 	if c.Server {
 		d.Side = "server"
 		d.Key = fmt.Sprintf("%x", c.Key)
@@ -154,7 +156,9 @@ func (c ctlCase) incoming() ref.Frame {
 
 func (c ctlCase) dataFrame(op byte, fin bool, p string) ref.Frame {
 	k := c.Key
-	k[0] ^= p[0]
+	if !c.SameKey {
+		k[0] ^= p[0]
+	}
 	return ref.Frame{H: ref.Header{Fin: fin, Op: op, Masked: c.Server, Mask: k}, Payload: []byte(p)}
 }
 
@@ -559,7 +563,7 @@ func TestPingPongAllLengths(t *testing.T) {
 					for ci, chunks := range chunkPlans {
 						for _, eofwd := range []bool{false, true} {
 							c := ctlCase{Op: op, Payload: payloadOf(l, byte(e)), Server: server, Entry: e, Chunks: chunks,
-								Key: [4]byte{byte(l), 0x80 | byte(e), byte(ci), 0x5a}, EOFWD: eofwd}
+								Key: [4]byte{byte(l), 0x80 | byte(e), byte(ci) + 0x20, 0x5a}, EOFWD: eofwd, SameKey: (l+ci)&1 == 1}
 							n++
 							class, bad := one(c)
 							if bad != "" {
@@ -609,7 +613,7 @@ func TestCloseAllCodes(t *testing.T) {
 				}
 				for e := first; e <= last; e++ {
 					c := ctlCase{Op: ref.OpClose, Payload: p, Server: server, Entry: e, Chunks: chunkPlans[(code+e)%len(chunkPlans)],
-						Key: [4]byte{byte(code), byte(code >> 8), 0xc3, byte(e)}, EOFWD: ((code>>3)+ri+e)&1 == 1}
+						Key: [4]byte{byte(code), byte(code>>8) ^ 0x35, 0xc3, byte(e) + 0x60}, EOFWD: ((code>>3)+ri+e)&1 == 1, SameKey: (code>>1)&1 == 1}
 					n++
 					class, bad := one(c)
 					if bad != "" {
@@ -665,7 +669,7 @@ func TestCloseBoundaries(t *testing.T) {
 			for e := 0; e < numEntries; e++ {
 				for ci, chunks := range chunkPlans[:2] {
 					c := ctlCase{Op: ref.OpClose, Payload: p, Server: server, Entry: e, Chunks: chunks, Key: [4]byte{byte(i), 0x91, byte(ci), byte(e)},
-						EOFWD: (i+e+ci)&1 == 1}
+						EOFWD: (i+e+ci)&1 == 1, SameKey: (i>>1)&1 == 1}
 					n++
 					class, bad := one(c)
 					if bad != "" {
@@ -858,6 +862,10 @@ func TestRepliesRandom(t *testing.T) {
 			c.Payload = gen.CtlFrame(t, "ctl", false).Payload
 		}
 		c.EOFWD = rapid.Bool().Draw(t, "eofwd")
+		if c.Server && rapid.IntRange(0, 3).Draw(t, "samekey?") == 0 {
+			b := rapid.Byte().Draw(t, "samekey")
+			c.SameKey, c.Key = true, [4]byte{b, b + 0x3b, b + 0x77, b + 0xc1}
+		}
 		if len(c.Payload) > 0 && rapid.IntRange(0, 3).Draw(t, "fault?") == 0 {
 			f := rapid.IntRange(faultError, faultCut).Draw(t, "fault")
 			if faultApplies(c.Entry, c.Op, f) {
@@ -885,9 +893,16 @@ func TestReadDataSequences(t *testing.T) {
 		if server {
 			state = ws.StateServerSide
 		}
+		var shared *[4]byte
+		if server && rapid.IntRange(0, 3).Draw(t, "samekey?") == 0 {
+			b := rapid.Byte().Draw(t, "samekey")
+			shared = &[4]byte{b, b + 0x3b, b + 0x77, b + 0xc1}
+		}
 		mk := func(op byte, fin bool, p []byte) ref.Frame {
 			h := ref.Header{Fin: fin, Op: op, Masked: server}
-			if server {
+			if shared != nil {
+				h.Mask = *shared
+			} else if server {
 				h.Mask = gen.Key(t, "key")
 			}
 			return ref.Frame{H: h, Payload: p}
@@ -959,6 +974,9 @@ func TestReadDataSequences(t *testing.T) {
 				t.Fatalf("ReadData returned %q, %v\nframes: %v", data, err, ref.Describe(frames))
 			}
 			hx.Class(fmt.Sprintf("readdata-sequence/message-delivered/pings=%d", len(pings)))
+			if shared != nil {
+				hx.Class("readdata-sequence/same-key-for-all-frames")
+			}
 		}
 		if len(pings) >= 2 || (len(pings) >= 1 && closed) {
 			hx.NonTrivial(hx.Hash("seq", ref.Shape(frames), server, len(closeP)), func() interface{} {
@@ -1014,9 +1032,13 @@ func TestReadMessageInterleaved(t *testing.T) {
 	var run func(ctl []ref.Frame, depth int) bool
 	run = func(ctl []ref.Frame, depth int) bool {
 		if len(ctl) >= 2 {
-			for v := 0; v < 8; v++ {
+			for v := 0; v < 10; v++ {
+				key := key
+				if v >= 8 { // server side, one key for every frame
+					key = func(int) [4]byte { return [4]byte{0x12, 0x6c, 0xa7, 0xf1} }
+				}
 				n++
-				if msg := checkReadMessageInterleaved(v&1 != 0, ctl, chunkPlans[(v>>1)&1], v&4 != 0, key); msg != "" {
+				if msg := checkReadMessageInterleaved(v&1 != 0 || v >= 8, ctl, chunkPlans[(v>>1)&1], v&4 != 0, key); msg != "" {
 					hx.Failf(t, map[string]interface{}{"server": v&1 != 0, "control_frames": ref.Describe(ctl), "chunks": chunkPlans[(v>>1)&1], "eof_with_data": v&4 != 0}, "%s", msg)
 					return false
 				}
@@ -1065,8 +1087,13 @@ func TestReadMessageInterleavedRandom(t *testing.T) {
 			ctl = append(ctl, f)
 		}
 		keys := make([][4]byte, len(ctl)+2)
+		same := server && rapid.IntRange(0, 3).Draw(t, "samekey?") == 0
 		for i := range keys {
-			keys[i] = gen.Key(t, "key")
+			if same && i > 0 {
+				keys[i] = keys[0]
+			} else {
+				keys[i] = gen.Key(t, "key")
+			}
 		}
 		chunks := gen.Chunks(t, "chunks")
 		eofWD := rapid.Bool().Draw(t, "eofwd")
